@@ -11,12 +11,40 @@ from hypothesis import strategies as st
 
 from vlib.runner import Fail, InvalidCase
 
-OP_POOL = ["dfg", "noop", "not", "mktuple", "custom", "input", "output", "tag", "divmod", "sink0", "src0"]
+OP_POOL = ["dfg", "noop", "not", "mktuple", "custom", "input", "output", "tag", "divmod", "sink0", "src0", "directext"]
+
+
+_DIRECT = []
+
+
+def direct_ext_op():
+    """An operation whose class implements the AsExtOp interface directly (neither ExtOp nor a registered
+    op, no name() override), the way user code defines gate sets."""
+    if not _DIRECT:
+        from dataclasses import dataclass
+
+        import hugr.ext as ext
+        import hugr.ops as ops
+        import hugr.tys as tys
+
+        e = ext.Extension("verif.direct", ext.Version(0, 1, 0))
+        d = e.add_op_def(ext.OpDef(name="Flip", description="flip", signature=ext.OpDefSig(tys.FunctionType.endo([tys.Bool]))))
+
+        @dataclass(frozen=True)
+        class Flip(ops.AsExtOp):
+            def op_def(self):
+                return d
+
+        _DIRECT.append(Flip)
+    return _DIRECT[0]()
 
 
 def mk_pool_op(name):
     import hugr.ops as ops
     import hugr.tys as tys
+
+    if name == "directext":
+        return direct_ext_op()
 
     if name == "dfg":
         return ops.DFG([tys.Bool], [tys.Bool])
@@ -187,7 +215,11 @@ def apply_step(h, m: Model, step, handles: dict) -> list[Fail]:
         # API satisfies it (a child never gets an index below its parent's), so the model expects success
         before_b = snapshot(b)
         try:
-            mapping = h.insert_hugr(b, handles[parent])
+            if psel % 4 == 0:
+                parent = m.root
+                mapping = h.insert_hugr(b)  # the documented default: under the root
+            else:
+                mapping = h.insert_hugr(b, handles[parent])
         except ParentBeforeChild:
             return [Fail("insert_hugr", "ParentBeforeChild", "raised for a HUGR built through the API")]
         mp = {k.idx: v for k, v in mapping.items()}
@@ -538,6 +570,17 @@ def apply_valid_mutation(h, step, flags: set):
             flags.add("multi-link")
         h.add_link(OutPort(s, -1), InPort(d, -1))
         flags.add("order-link")
+    elif kind == "insert_default":
+        # a small HUGR inserted with insert_hugr's default parent (the root)
+        from hugr.hugr import Hugr
+
+        b = Hugr(mk_pool_op("dfg"))
+        x = b.add_node(mk_pool_op(step[1]), b.root)
+        b.add_node(mk_pool_op("noop"), b.root)
+        if step[2]:
+            b.add_order_link(x, x) if has_order_port(b, x, "out") and has_order_port(b, x, "in") else None
+        h.insert_hugr(b)
+        flags.add("insert")
     elif kind in ("delete_existing_link", "delete_link"):
         ls = list(h.links())
         if ls:
@@ -565,6 +608,7 @@ def valid_mutations(max_steps=8):
         (2, st.tuples(st.just("add_raw_order_link"), st.integers(0, 2), st.integers(0, 2)).map(list)),
         (2, st.tuples(st.just("delete_existing_link"), SEL).map(list)),
         (3, st.tuples(st.just("delete_node"), SEL).map(list)),
+        (1, st.tuples(st.just("insert_default"), st.sampled_from(["custom", "noop", "dfg", "not"]), st.booleans()).map(list)),
     ]
     return st.lists(weighted(*alts), max_size=max_steps)
 
